@@ -10,5 +10,7 @@ import DiffxVerif.Properties.C09
 #print axioms Diffx.C09.C09_level_invariant
 #print axioms Diffx.C09.C09_negative_indent_rejected
 #print axioms Diffx.C09.C09_negative_indent_optionError
+#print axioms Diffx.C09.C09_unrepresentable_value_rejected
+#print axioms Diffx.C09.C09_unrepresentable_encoding_rejected
 #print axioms Diffx.Tie.tie_validNext
 #print axioms Diffx.Tie.tie_specdoc
